@@ -592,7 +592,9 @@ class Generator:
                 if f is None or "function" not in f["inner"]:
                     continue
                 m = A.Method(f)
-                facts = doc_facts(f.get("docs"))
+                # the traits mirror the inherent methods; the documented panic
+                # situations are written on the inherent ones
+                facts = self._inherent_doc_facts(lay.struct).get(m.name) or doc_facts(f.get("docs"))
                 policy, base = split_policy(m.name)
                 subst = {"Self": lay.name}
                 targs = [None]
@@ -628,6 +630,22 @@ class Generator:
                                     guard=guard if gstmt else None, kind="trait", float_msgs=fmsgs,
                                     code=fn_text(sym, params, ret, call, gstmt)))
         return out
+
+    def _inherent_doc_facts(self, struct):
+        c = getattr(self, "_idf", None)
+        if c is None:
+            c = self._idf = {}
+        if struct not in c:
+            d = {}
+            for im in self.api.impls[struct]:
+                if im.trait is not None:
+                    continue
+                for it in im.raw["items"]:
+                    f = self.api.idx.get(str(it))
+                    if f is not None and "function" in f["inner"]:
+                        d[f["name"]] = doc_facts(f.get("docs"))
+            c[struct] = d
+        return c[struct]
 
     def _render_trait_ty(self, t, subst, lay):
         if t is None:
